@@ -911,6 +911,46 @@ class Gen:
             c["doc2"] = self.recase_doc(fields, doc)
         return c
 
+    # ---- options x member kinds x presence, enumerated
+    def option_grid(self):
+        """every member kind {scalar, *scalar, []T, map, struct, *struct, embedded struct, embedded pointer}
+        x every option set {none, optional, default, optional+default, optional=dep, range} that applies
+        x {absent, present, present and empty}: small shapes, all combinations"""
+        res = []
+        inner = lambda o: St(F("X", P("int"), o), F("Y", P("string"), O(opt=True)))
+        kinds = [
+            ("int", P("int"), [di(5)], True), ("pint", Ptr(P("int")), [di(5)], True), ("str", P("string"), [ds("v"), ds("")], True),
+            ("f64", P("float64"), [dfl("1.5"), di(2)], True), ("bool", Ptr(P("bool")), [db(False)], True),
+            ("slice", Sl(P("int")), [dl(di(1), di(2)), dl()], False), ("map", Mp(P("string")), [dm(("Kk", ds("v"))), dm()], False),
+            ("struct", inner(None), [dm(("X", di(1))), dm()], False), ("structopt", inner(O(opt=True)), [dm(("x", di(1))), dm()], False),
+            ("pstruct", Ptr(inner(O(**{"def": "9"}))), [dm(("X", di(1))), dm()], False),
+            ("slstruct", Sl(inner(O(opt=True))), [dl(dm(("X", di(1))), dm()), dl()], False),
+        ]
+        for name, t, vals, scalar in kinds:
+            optsets = [None, O(opt=True), O(opt=True, dep="Req"), O(opt=True, dep="Req", neg=True)]
+            if scalar:
+                dflt = {"int": "7", "pint": "7", "str": "dflt", "f64": "2.5", "bool": "true"}[name]
+                optsets += [O(**{"def": dflt}), O(opt=True, **{"def": dflt})]
+                if name in ("int", "pint"):
+                    optsets += [O(range=R("[1:6]")), O(range=R("(5:9]"), **{"def": "7"})]
+            for o in optsets:
+                for pres in [None] + vals:
+                    for req in (True, False):
+                        fields = [F("Req", P("string"), O(opt=True)), F("Member", t, o)]
+                        pairs = ([("Req", ds("r"))] if req else []) + ([("Member", pres)] if pres is not None else [])
+                        res.append({"kind": "load", "type": fields, "doc": dm(*pairs), "doc2": None, "env": None})
+        for eopt in (False, True):
+            for eptr in (False, True):
+                for io in (None, O(opt=True), O(**{"def": "3"})):
+                    for pres in (None, di(1)):
+                        fields = [E([F("X", P("int"), io), F("Z", P("string"), O(opt=True))], eopt=eopt, eptr=eptr), F("Req", P("string"), O(opt=True))]
+                        for z in (False, True):
+                            pairs = ([("X", pres)] if pres is not None else []) + ([("z", ds("zz"))] if z else [])
+                            res.append({"kind": "load", "type": fields, "doc": dm(*pairs), "doc2": None, "env": None})
+        for c in res:
+            c["doc2"] = self.recase_doc(c["type"], c["doc"])
+        return res
+
     def mfmt_case(self):
         """mapping.Unmarshal{Json,Yaml,Toml}{Bytes,Reader}: no conf layer, keys are matched exactly"""
         rng = self.rng
@@ -1303,6 +1343,19 @@ def raw_corpus():
             "toml": "L = [\n  1, 2, # c\n  3,\n]\nT = " + q3 + "\nline1\nline2\n" + q3 + "\n[M]\n\"Key With Space\" = \"it's\"\nk2 = \"tab\\there\"\n",
             "json": "{\"M\":{\"Key With Space\":\"it's\",\"k2\":\"tab\\there\"},\"L\":[1,2,3],\"T\":\"line1\\nline2\\n\"}",
         }})
+    # scalars that change their TYPE by spelling (YAML 1.1 booleans, 0x / 0 / 0b / _ integers, exponent floats; quoted:
+    # strings), CRLF line ends in all three texts
+    cs.append({
+        "kind": "load", "env": None, "doc2": None,
+        "type": [F("B1", P("bool")), F("B2", P("bool")), F("Hex", P("int")), F("Oct", P("int")), F("Us", P("int")), F("Fl", P("float64")),
+                 F("S1", P("string")), F("S2", P("string")), F("Neg", P("int")), F("S3", P("string"))],
+        "doc": dm(("B1", db(True)), ("B2", db(False)), ("Hex", di(31)), ("Oct", di(8)), ("Us", di(1000)), ("Fl", dfl("1e3")),
+                  ("S1", ds("yes")), ("S2", ds("010")), ("Neg", di(-3)), ("S3", ds("2001-01-01"))),
+        "texts": {
+            "yaml": "B1: on\r\nB2: No\r\nHex: 0x1F\r\nOct: 010\r\nUs: 1_000\r\nFl: 1e3\r\nS1: \"yes\"\r\nS2: '010'\r\nNeg: -0b11\r\nS3: '2001-01-01'\r\n",
+            "toml": "B1 = true\r\nB2 = false\r\nHex = 0x1F\r\nOct = 0o10\r\nUs = 1_000\r\nFl = 1e3\r\nS1 = \"yes\"\r\nS2 = '010'\r\nNeg = -3\r\nS3 = \"2001-01-01\"\r\n",
+            "json": "{\r\n\"B1\":true,\r\n\"B2\":false,\"Hex\":31,\"Oct\":8,\"Us\":1000,\"Fl\":1e3,\r\n\"S1\":\"yes\",\"S2\":\"010\",\"Neg\":-3,\"S3\":\"2001-01-01\"}\r\n",
+        }})
     return cs
 
 
@@ -1559,7 +1612,7 @@ class C17(Property):
         tries = 0
         landed = fix_landed()
         n_shape = max(40, n // 5)
-        n_main = n - n_shape - max(24, n // 20)
+        n_main = n - n_shape - max(24, n // 20) - 48
         while len(cases) < n_main and tries < 20 * n:
             tries += 1
             r = rng.random()
@@ -1581,6 +1634,8 @@ class C17(Property):
                 self.skipped[FIX_ID] = self.skipped.get(FIX_ID, 0) + 1
                 continue
             cases.append(c)
+        grid = [c for c in g.option_grid() if not detect_shapes(c)]
+        cases += grid if tier != "quick" else rng.sample(grid, min(len(grid), 48))
         n_alias = 0
         while n_alias < max(24, n // 20):
             c = g.alias_case(["load", "std", "mfmt"][n_alias % 3])
